@@ -40,6 +40,11 @@ type propCfg struct {
 	// Fuzz targets run in the thorough tier after the search (native go fuzzing).
 	Fuzz     []string
 	FuzzTime time.Duration
+	// MemLimitKB: run shards under `ulimit -v` (the property has a memory clause).
+	MemLimitKB int
+	// DeathIsViolation: a shard that dies (fatal runtime error, OOM) while a
+	// journaled case is in flight is a violation naming that case.
+	DeathIsViolation bool
 }
 
 var props = map[string]propCfg{}
@@ -54,6 +59,7 @@ func init() {
 	reg(propCfg{ID: "C05", Level: "exploration", Quick: q(16, 3000), Thorough: th(16, 80000)})
 	reg(propCfg{ID: "C06", Level: "exploration", Quick: q(16, 3000), Thorough: th(16, 50000)})
 	reg(propCfg{ID: "C07", Level: "exploration", Quick: q(16, 2500), Thorough: th(16, 40000)})
+	reg(propCfg{ID: "C08", Level: "fault_enumeration", Quick: q(16, 6000), Thorough: th(16, 150000), MemLimitKB: 4 << 20, DeathIsViolation: true})
 	reg(propCfg{ID: "C11", Level: "exploration", Quick: q(16, 5000), Thorough: th(16, 60000)})
 }
 
@@ -86,8 +92,9 @@ type shardResult struct {
 	k       int
 	part    *h.Part
 	exit    int
-	out     string
-	timeout bool
+	out      string
+	timeout  bool
+	inflight []byte
 }
 
 func shardSeed(seed int64, k int) uint64 {
@@ -98,17 +105,24 @@ func shardSeed(seed int64, k int) uint64 {
 	return uint64(1 + v)
 }
 
-func runShard(bin, id, tier string, k, n int, seed int64, checks int, timeout time.Duration, partsDir string) shardResult {
+func runShard(cfg propCfg, bin, id, tier string, k, n int, seed int64, checks int, timeout time.Duration, partsDir string) shardResult {
 	partPath := filepath.Join(partsDir, fmt.Sprintf("%s.%d.json", id, k))
 	os.Remove(partPath)
+	inflight := filepath.Join(partsDir, fmt.Sprintf("%s.%d.inflight", id, k))
+	os.Remove(inflight)
 	args := []string{
 		"-test.run", "^Test" + id + "$", "-test.timeout", timeout.String(), "-test.count", "1",
 		"-rapid.checks", strconv.Itoa(checks), "-rapid.seed", strconv.FormatUint(shardSeed(seed, k), 10),
 		"-rapid.nofailfile", "-rapid.shrinktime", "45s",
 	}
 	cmd := exec.Command(bin, args...)
+	if cfg.MemLimitKB > 0 {
+		sh := fmt.Sprintf("ulimit -v %d; exec \"$0\" \"$@\"", cfg.MemLimitKB)
+		cmd = exec.Command("sh", append([]string{"-c", sh, bin}, args...)...)
+	}
 	cmd.Dir = filepath.Join(verifDir(), "props")
 	cmd.Env = append(os.Environ(),
+		"VERIF_INFLIGHT="+inflight,
 		"VERIF_MODE=search", "VERIF_TIER="+tier, "VERIF_SHARD="+strconv.Itoa(k), "VERIF_NSHARDS="+strconv.Itoa(n),
 		"VERIF_SEED="+strconv.FormatInt(seed, 10), "VERIF_PART_OUT="+partPath, "VERIF_DIR="+verifDir(),
 		"VERIF_CHECKS="+strconv.Itoa(checks))
@@ -131,6 +145,12 @@ func runShard(bin, id, tier string, k, n int, seed int64, checks int, timeout ti
 			res.part = &p
 		}
 	}
+	if res.exit != 0 && (res.part == nil || !res.part.Done) && !res.timeout {
+		if b, err := os.ReadFile(inflight); err == nil && len(bytes.TrimSpace(b)) > 0 {
+			res.inflight = b
+		}
+	}
+	os.Remove(inflight)
 	return res
 }
 
@@ -210,8 +230,18 @@ func replay(cfg propCfg, file string) int {
 	cmd := exec.Command(bin, "-test.run", "^Test"+cfg.ID+"$", "-test.count", "1", "-test.timeout", "10m")
 	cmd.Dir = filepath.Join(verifDir(), "props")
 	cmd.Env = append(os.Environ(), "VERIF_MODE=replay", "VERIF_REPLAY="+abs, "VERIF_DIR="+verifDir())
+	if cfg.MemLimitKB > 0 {
+		sh := fmt.Sprintf("ulimit -v %d; exec \"$0\" \"$@\"", cfg.MemLimitKB)
+		c2 := exec.Command("sh", "-c", sh, bin, "-test.run", "^Test"+cfg.ID+"$", "-test.count", "1", "-test.timeout", "10m")
+		c2.Dir, c2.Env = cmd.Dir, cmd.Env
+		cmd = c2
+	}
 	out, err := cmd.CombinedOutput()
-	fmt.Print(string(out))
+	fmt.Print(tail(string(out), 60))
+	if cfg.DeathIsViolation && err != nil && !strings.Contains(string(out), "REPLAY-") {
+		fmt.Printf("the replay process died\nVIOLATION property=%s replay=%s\n", cfg.ID, abs)
+		return 1
+	}
 	if strings.Contains(string(out), "REPLAY-FAIL") {
 		fmt.Printf("VIOLATION property=%s replay=%s\n", cfg.ID, abs)
 		return 1
@@ -287,7 +317,7 @@ func run(cfg propCfg, tier string, seed int64) int {
 		wg.Add(1)
 		go func(k int) {
 			defer wg.Done()
-			results[k] = runShard(bin, cfg.ID, tier, k, tc.Shards, seed, tc.Checks, tc.Timeout, partsDir)
+			results[k] = runShard(cfg, bin, cfg.ID, tier, k, tc.Shards, seed, tc.Checks, tc.Timeout, partsDir)
 		}(k)
 	}
 	wg.Wait()
@@ -312,6 +342,16 @@ func run(cfg propCfg, tier string, seed int64) int {
 	capped := false
 	var notes []string
 	for _, r := range results {
+		if (r.part == nil || !r.part.Done) && cfg.DeathIsViolation && len(r.inflight) > 0 {
+			dir := filepath.Join(verifDir(), "replays")
+			os.MkdirAll(dir, 0o755)
+			path := filepath.Join(dir, fmt.Sprintf("%s-died-shard%d.json", cfg.ID, r.k))
+			rf := h.ReplayFile{Property: cfg.ID, Class: "process-died", Msg: "the test process died while this case was in flight:\n" + tail(r.out, 12), Case: json.RawMessage(r.inflight)}
+			b, _ := json.MarshalIndent(rf, "", " ")
+			os.WriteFile(path, b, 0o644)
+			failures = append(failures, &h.FailureRec{Class: "process-died", Msg: rf.Msg, Replay: path})
+			continue
+		}
 		if r.part == nil || !r.part.Done {
 			inconclusive = true
 			notes = append(notes, fmt.Sprintf("shard %d: no complete part file (exit %d)\n%s", r.k, r.exit, tail(r.out, 30)))
